@@ -33,7 +33,16 @@ UNPAY = {pay(m): m for m in range(1, 200)}
 
 
 def unpay(x):
-    return UNPAY.get(x, -1)
+    """message id of a payload; a queued structured message (raw JSON on the unchanged tree, possibly an object on a
+    changed one) is identified by its header "h:<payload>" """
+    try:
+        if isinstance(x, str) and x.startswith('{"header"'):
+            x = json.loads(x).get("header", "")[2:]
+        elif not isinstance(x, str) and hasattr(x, "header"):
+            x = str(x.header)[2:]
+        return UNPAY.get(x, -1)
+    except Exception:
+        return -1
 
 
 # ------------------------------------------------------------------ configurations
@@ -47,6 +56,8 @@ def impl_cfg(cfg):
         d = dict(key=[f"n{a}", f"n{b}", i], cb=th["cb"], ops=ops)
         if th.get("cls"):
             d["cls"] = th["cls"]
+        if th.get("structured"):
+            d["structured"] = True
         out.append(d)
     return out
 
@@ -135,7 +146,8 @@ def run_two(cfg1, cfg2, ch1, ch2):
 def _gen_cfg(rng, family=None):
     """Small configurations: 2-4 threads, <= 4 ops each between connect and disconnect."""
     family = family or rng.choice(["pair", "pair", "pair", "paircb", "paircb", "twosock", "threenode",
-                                   "reinc", "reinc", "lone", "shared", "reconn", "reconn", "reconn", "switch", "switch", "switch"])
+                                   "reinc", "reinc", "lone", "shared", "reconn", "reconn", "reconn", "switch", "switch", "switch",
+                                   "structured", "structured"])
     mid = [0]
 
     def fresh():
@@ -207,6 +219,11 @@ def _gen_cfg(rng, family=None):
                 rops.append(["recvnb"])
         cfg = [dict(key=[1, 0, 0], cb=cb0, ops=rops),
                dict(key=[0, 1, 0], cb=False, ops=[["connect"]] + [["send", fresh()] for _ in range(nsend)])]
+    elif family == "structured":
+        # send_structured / recv_structured: the sender keeps re-using (and changing in place) the object it sent
+        cfg = pair(0, False, False)
+        for th in cfg:
+            th["structured"] = True
     elif family == "lone":
         cfg = pair(0, False, False, budget=2) + [dict(key=[2, 0, 0], cb=False, ops=script(1, 0, 0, False))]
     else:  # shared: two threads use endpoints with one and the same key (two receivers on one queue)
@@ -317,6 +334,10 @@ def oracle(run, cfg):
     for e in run.errors:
         bad.append(("lock-discipline", e))
     n = len(cfg)
+    for (t, got, want) in getattr(run, "altered", []):
+        bad.append(("structured-altered", f"thread {t} {cfg[t]['key']} received the structured message {got} but the message "
+                                          f"with that header was {want} when it was sent (deep copy at send time): the "
+                                          f"sender's later in-place changes reached the receiver"))
     # an operation must end with its documented outcome: ok / message / ConnectionError / "nothing to
     # receive" for a non-blocking receive; never IndexError, KeyError or another RuntimeError
     for t in range(n):
